@@ -143,14 +143,14 @@ func runC10(c *mon.Ctx) {
 		for n := 1; n <= 64; n++ {
 			ns = append(ns, n)
 		}
-		ns = append(ns, 65, 127, 128, 129, 255, 256, 257)
+		ns = append(ns, 65, 127, 128, 129, 255, 256, 257, 600, 1030) // the last two: spans of more than 2^9 hashes inside one tall tile
 	} else {
 		for n := 1; n <= 520; n++ {
 			ns = append(ns, n)
 		}
 		ns = append(ns, 511, 512, 513, 1023, 1024, 1025, 2047, 2048, 2049, 4095, 4096, 4097)
 	}
-	hs := []int{1, 2, 3, 4, 8, 30} // 30 is the largest height the tile functions accept
+	hs := []int{1, 2, 3, 4, 8, 9, 10, 30} // 30 is the largest height the tile functions accept
 	if !c.Quick() {
 		hs = []int{1, 2, 3, 4, 5, 6, 7, 8, 9, 10, 29, 30}
 	}
